@@ -113,7 +113,12 @@ def norm_answer(ctx, kind, path, r):
         return sorted(n for n in r if os.path.join(path, n) not in masked)
     if kind in ('walk', 'walk_bu'):
         out = []
+        links = getattr(ctx, 'linkdirs', ())
         for d, a, b in r:
+            # documented: walk does not descend into sub-directories that are symbolic links (the model treats a linked
+            # directory as a plain one, so its tuples for such a directory and everything below it are dropped)
+            if any((d == L or d.startswith(L + '/')) and not (path == L or path.startswith(L + '/')) for L in links):
+                continue
             a2 = sorted(n for n in a if os.path.join(d, n) not in masked)
             b2 = sorted(b)
             if d in masked and not a2 and not b2:
@@ -194,6 +199,15 @@ def run_block(ctx, b, inv, fname, args, stmts, obs, filename):
                 a = do_query(ctx, b, kind, path, cmp)
             obs.append([kind, path, a])
             ctx.record_trace(inv, kind, path, a)
+            continue
+        if op == 'qn':
+            # racy query (C09): executed with preemption on a path another task is working on.  Simple operations are
+            # documented as not atomic under concurrency, so the *answer* is not judged (recorded as a token in both
+            # modes); what the query may not do is leave a durable trace (directory bookkeeping, cache contents)
+            _, kind, path, cmp = s
+            do_query(ctx, b, kind, path, cmp)
+            obs.append([kind, path, 'RACY'])
+            ctx.record_trace(inv, kind, path, 'RACY')
             continue
         if op == 'q':
             _, kind, path, cmp = s
@@ -279,6 +293,7 @@ def run_call(ctx, b, s, obs):
     else:
         inv = 'S:%s:%s' % (fn, canon_text([json.loads(json.dumps(list(a))), json.loads(json.dumps(kw))]))
     ctx.call_stack.append(inv)
+    ctx.extra.setdefault('events', []).append(('call', inv))        # global order of requests and invocations
     if ctx.extra.get('injector') is not None:
         ctx.extra.setdefault('call_marks', []).append(ctx.extra['injector'].count)
     try:
@@ -295,7 +310,11 @@ def _run_call_inner(ctx, b, s, obs, op, path, fn, a, kw, catch, cmp, n0, dup, in
             else:
                 from file_builder import FileComparison
                 c = FileComparison[cmp]
-            r = b.build_file_with_comparison(path, c, fn, make_func(ctx, fn), *a, **kw)
+            if ctx.mode == 'real' and cmp == 'METADATA' and (sum(map(ord, fn)) + len(path)) % 2 == 0:
+                # the convenience wrapper (METADATA is its default comparison); the choice is a function of the call
+                r = b.build_file(path, fn, make_func(ctx, fn, path), *a, **kw)
+            else:
+                r = b.build_file_with_comparison(path, c, fn, make_func(ctx, fn, path), *a, **kw)
             if ctx.mode == 'real':
                 ctx.calls.append((path, 'ok'))
                 post_bf_check(ctx, path, True, None, False)
@@ -319,6 +338,9 @@ def _run_call_inner(ctx, b, s, obs, op, path, fn, a, kw, catch, cmp, n0, dup, in
                 ctx.uncatchable = e
                 raise
             obs.append([op, fn, '!fault'])
+            if getattr(ctx, 'fault_retry', False):
+                # user code that retries the call after a (transient) OS error
+                _run_call_inner(ctx, b, s, obs, op, path, fn, a, kw, catch, cmp, len(ctx.log), False, inv)
             return
         if ctx.uncatchable is not None and e is ctx.uncatchable:
             if ctx.fault_mode == 'catch_root' and len(ctx.call_stack) == 1:
@@ -360,7 +382,7 @@ def post_bf_check(ctx, path, ok, exc, invoked):
                                     % exc_class(exc), path))
 
 
-def make_func(ctx, fname):
+def make_func(ctx, fname, expect_path=None):
     spec = ctx.prog['funcs'][fname]
     is_file = spec['kind'] == 'file'
 
@@ -369,12 +391,16 @@ def make_func(ctx, fname):
             inv = 'F:' + str(filename)
         else:
             inv = 'S:%s:%s' % (fname, canon_text([list(args), kwargs]))
+        ctx.extra.setdefault('events', []).append(('inv', inv))
         ctx.log.append({'step': ctx.step, 'fname': fname, 'kind': 'F' if is_file else 'S',
                         'path': filename, 'args': canon_text([list(args), kwargs]), 'inv': inv,
                         'tid': threading.get_ident()})
         if is_file and ctx.mode == 'real':
             if not (isinstance(filename, str) and os.path.isabs(filename) and os.path.normpath(filename) == filename):
                 ctx.inside_fail.append(('function received a non-absolute/non-normalised path', repr(filename)))
+            elif expect_path is not None and filename != os.path.abspath(expect_path):
+                # (the library never resolves symbolic links: the path is the one requested, made absolute and normalised)
+                ctx.inside_fail.append(('function received another path than the one requested', repr(filename)))
             if os.path.lexists(filename):
                 ctx.inside_fail.append(('target exists when the function starts', filename))
             if not os.path.isdir(os.path.dirname(filename)):
@@ -413,7 +439,7 @@ def bind_program(prog, ap):
         out = []
         for s in stmts:
             s = list(s)
-            if s[0] in ('q', 'qa'):
+            if s[0] in ('q', 'qa', 'qn'):
                 s[2] = ap(s[2])
             elif s[0] == 'bf':
                 s[1] = ap(s[1])
